@@ -359,7 +359,7 @@ func genCase(r *vh.Rand, mode string, shared bool, maxOps int) *Case {
 	}
 	nsub := 1 + r.Pick(2, 5, 1)
 	for i := 0; i < nsub; i++ {
-		cs.Subs = append(cs.Subs, genSub(r, mode == "A"))
+		cs.Subs = append(cs.Subs, genSub(r, true))
 	}
 	return cs
 }
